@@ -111,4 +111,45 @@ CHECKS = {
         "note": COMMON_NOTE + "P(T,V) and the volume-base arrays are taken from the real run; the bound is widened x10 in the two outermost grid intervals.",
         "technique": "Lean 4 theorems (functional induction on the bisection, field_simp/ring); Float-run correspondence at 1e-10; numpy-only oracle incl. a v2p call counter for 'rejected before any conversion'",
     },
+    "C03": {
+        "text": "Energy invariance over any commutative ring and exactness of the shear solver for all 15 keys, every symmetric tensor and every "
+                "orthogonal diagonalising frame over any field of characteristic 0; no self-dependency, rotated keys non-shear, strain_rotated "
+                "= diagonal of the rotated diagonal strain with trace kept and independence of eigenvector sign and order. The real "
+                "ShearElasticModulusPhononContribution is run on exact tensors (the 21 basis tensors plus random ones), with numpy's own eigh "
+                "output fed to the model. Oracle: the tensor component itself.",
+        "note": COMMON_NOTE + "eigh and isclose are parameters with contracts (orthogonality, diagonalisation) measured on every case.",
+        "technique": "Lean 4 theorems (Finset sum algebra, Matrix one-sided inverse, decide +kernel tables, linear_combination) + differential correspondence + tensor-component oracle",
+    },
+    "C04": {
+        "text": "Proved about the model: acyclicity by a rank and termination of the LIFO work-list; queue-level closure invariant (every "
+                "requested key and every dependency gets a task and an edge, edges raise the rank); calculate over any valid order stores spec "
+                "for every task; request independence; the isotropic limit for any orthogonal frames; axis permutation for equivariant frames "
+                "and identically zero c14/c25/c36 for axis-containing frames. PARTIAL: for an arbitrary basis inside the double eigenspace of "
+                "c14/c25/c36 the value depends on the basis (covered by the permutation oracle on the real code only). The real "
+                "PhononContributionTaskList is driven by a stub calculator; oracles: assembly (completeness, DAG, evaluation order, "
+                "definition values), independence (incl. near-coincident strain fractions), isotropy, six permutations.",
+        "note": COMMON_NOTE + "Task equality is a parameter relation assumed to be an equivalence; its float tolerance is read off the real __eq__ on every run. networkx.topological_sort is a parameter (its output is checked to respect the edges).",
+        "technique": "Lean 4 theorems (work-list invariant, induction on fuel and rank, decide +kernel tables) + correspondence modulo task renumbering + metamorphic and definitional oracles",
+    },
+    "C17": {
+        "text": "Record/line-level model of read_energy/write_energy, read_elast_data, _find_modulus_key, apply_symetry_on_elast_data and the "
+                "re-emission of `cij fill`; read(write d) proved equal to rounding-to-printed-precision for every well-formed data set and any "
+                "lawful number formatter; exact static-table read (any digit-free prefix / 2- or 4-index spelling -> canonical key via the C10 "
+                "table); fill output proved to be a table whose parse is the symmetry-filled parse with header lines, counts, volumes and "
+                "lattice block preserved, fill_cij being a parameter. The real code is compared token-by-token with the model on exact decimal "
+                "arithmetic and with the generating data. PARTIAL: strip/split, regex engine, printf/float(), pandas read_table/to_string are "
+                "outside the model (tested through the real functions).",
+        "note": COMMON_NOTE + "fill_cij is a parameter with an explicit naturality hypothesis (C08/C09 own it). Known finding: fill_cij recognises only c<i><j> column names.",
+        "technique": "Lean 4 theorems by induction over volumes/q-points/modes/rows (abstract Num with parse(fmt x) = round x) + decide +kernel instances over Rat + differential run against the real writer/reader/CLI with the generating data as oracle",
+    },
+    "C20": {
+        "text": "evec_sort's greedy loop proved to recover any planted permutation whose entries are positive and dominate their rows, over any "
+                "linear order, with the output a permutation; the hypothesis proved with margin 1-2eps for any orthonormal family (real or "
+                "complex), permuted, re-phased and perturbed by eps<1/2 (5% as instance); counter-example without dominance; disp2eig proved to "
+                "give unit norm and to restore (c/|c|)e_i and orthonormality for all positive masses; dimension-mismatch rejection "
+                "characterised; loader proved at block and column-slice level. PARTIAL: the loader's regexes/float() are parameters of the "
+                "theorems (hand-written scanners in the driver, compared with the real loader).",
+        "note": COMMON_NOTE + "The bridge from the model's complex-pair overlap to Mathlib's inner product is not proved (Float run compared with numpy on every case).",
+        "technique": "Lean 4 (Finset-indexed loop invariant, Mathlib inner-product spaces, Real.sqrt algebra) + differential run with planted permutation / orthonormality / printed numbers as oracle",
+    },
 }
